@@ -9,6 +9,7 @@ mod c20;
 mod data;
 mod driver;
 mod env;
+mod fault;
 mod fp;
 mod prng;
 mod report;
